@@ -396,7 +396,7 @@ def body(case):
 
 def plan(tier):
     if tier == "quick":
-        return [{"name": "query%d" % i, "n": 40} for i in range(16)]
+        return [{"name": "query%d" % i, "n": 70} for i in range(16)]
     return [{"name": "query%d" % i, "n": 1200} for i in range(16)]
 
 
